@@ -124,9 +124,9 @@ static void scenario(const vh::Json& sc, vh::Out& out, vh::Rng& rng, const vh::A
     fol.new_stream_callback(&on_new);
     fol.stream_termination_callback(&on_term);
     fol.follow_partial_streams(attach);
-    // one model tick is a second in half of the scenarios and 750 ms in the others (the keep-alive is then 7.5 s: not a whole number
+    // one model tick is a second in half of the scenarios and 350 ms in the others (the keep-alive is then 3.5 s: not a whole number
     // of seconds; capture times carry the same unit)
-    const long unit_ms = (out.sid % 2) ? 1000 : 750;
+    const long unit_ms = (out.sid % 2) ? 1000 : 350;      // 10 ticks = 3.5 s; 9 ticks = 3.15 s lies between the keep-alive and its whole-second part
     if (unit_ms == 1000) fol.stream_keep_alive(std::chrono::seconds(KA)); else fol.stream_keep_alive(std::chrono::milliseconds(KA * unit_ms));
     fol.verif_set_limits((size_t)maxChunks, (uint32_t)maxBytes);
     const vh::Json& pk = sc["pkts"];
